@@ -1,5 +1,6 @@
 SPECIFICATION Spec
 CONSTANTS HourDoesNotZeroMinutes <- Off
+          DayMoveKeepsHour <- Off
           Week53Everywhere <- Off
           AllowKnownClass <- On
           Shapes = 0
